@@ -723,6 +723,7 @@ func run(cx *lib.Ctx) {
 		bodyCase(cx, R.Fork(), i)
 	}
 	directedBlockSpecs(cx)
+	directedUnify(cx)
 	directedExprs(cx)
 	directedTwoMarks(cx)
 	directedGeneratedAttrs(cx)
